@@ -484,3 +484,10 @@ func (l *Lab) CallbacksSince(n int) []Ev {
 	defer l.cbMu.Unlock()
 	return append([]Ev(nil), l.cb[n:]...)
 }
+
+// NewClientLocked registers a client while other goroutines may do the same.
+func (l *Lab) NewClientLocked(mu *sync.Mutex) *Client {
+	mu.Lock()
+	defer mu.Unlock()
+	return l.NewClient()
+}
